@@ -24,7 +24,7 @@ from ..model import AnalysisError, ClassInfo, FuncInfo, walk_no_nested
 from ..paths import calls_in
 from ..ppgram import GrammarEval, Langs, int_accept
 from ..report import Ctx
-from .c01 import immw_rule, map_rule
+from .c01 import map_rule
 
 EXPLANATION = (
     "Decides the print/parse round trip structurally for every operand combination at once: each "
@@ -158,7 +158,7 @@ def run(ctx: Ctx) -> None:
     shapes = [(a.src or f"alt{i}", flatten(a)) for i, a in enumerate(alts.items)]
     wi = m.method(pc, "_write_instructions", own=True)
     branches = dispatch_branches(m, wi)
-    if len(branches) < 9:
+    if len(branches) < 5:
         raise AnalysisError(f"R14.align: only {len(branches)} issubclass branches found in _write_instructions")
     reg_item = ge.get("_pattern_register")
     imm_g = ge.get("_pattern_imm")
@@ -275,7 +275,35 @@ def run(ctx: Ctx) -> None:
             "a numeric branch operand is no longer used unchanged as the (even) immediate")
     r.floor(40)
 
-    immw_rule(ctx)
+    idem_rule(ctx)
+
+
+def idem_rule(ctx: Ctx) -> None:
+    """The constructor's reduction of the immediate is a projection (k-bit sign or zero extension for
+    *some* k), so printing the stored value and re-assembling it stores the same value again."""
+    from ..bitslice import Evaluator, Form, Inconclusive
+    from ..consteval import Folder
+    from .c01 import IMM_FORMATS
+    m = ctx.model
+    r = ctx.rule("R14.sext", "immediate reduction is idempotent (a k-bit sign/zero extension)")
+    for cn, (attr, param, width, signed) in IMM_FORMATS.items():
+        c = m.cls(cn)
+        init = m.method(c, "__init__", own=True)
+        val = None
+        for n in init.node.body:
+            if isinstance(n, ast.Assign) and isinstance(n.targets[0], ast.Attribute) and n.targets[0].attr == attr \
+                    and isinstance(n.targets[0].value, ast.Name) and n.targets[0].value.id == init.params[0]:
+                val = n.value
+        if val is None:
+            raise AnalysisError(f"anchor vanished: {cn}.__init__ assignment of self.{attr}")
+        try:
+            got = Evaluator({param: Form.var(param)}, Folder(m, init.module, c)).ev(val)
+        except Inconclusive as exc:
+            raise AnalysisError(f"R14.sext: {cn}.{attr} is outside the bit-slice domain: {exc}")
+        ok = any(got == Form.field(param, 0, k, signed=s) for k in range(1, 33) for s in (True, False)) or got == Form.var(param)
+        r.check(ok, f"{cn}.{attr}", init.loc(val), f"{cn} stores {attr} = {got.describe()}, which is not a k-bit sign/zero extension: "
+                "re-assembling the printed value would store a different immediate")
+    r.floor(7)
 
 
 def _show(tpl) -> str:
